@@ -149,16 +149,22 @@ func C12(r *h.Run) {
 			for i, n := range names {
 				coqNames[i] = h.CoqStr(n)
 			}
+			expired := false // the request announces a timeout of zero: its context is over when the handler starts
 			run := func(method string, ver [2]int, ct string, model bool) {
 				userCalls, icptCalls, specs = 0, 0, specs[:0]
 				req := httptest.NewRequest("POST", procedure, bytes.NewReader(bodyFor(ct)))
 				req.Method = method
 				req.ProtoMajor, req.ProtoMinor = ver[0], ver[1]
 				req.Header["Content-Type"] = []string{ct}
+				if expired {
+					req.Header.Set("Connect-Timeout-Ms", "0")
+					req.Header.Set("Grpc-Timeout", "0n")
+					model = false
+				}
 				rec := httptest.NewRecorder()
 				p := safely(func() { handler.ServeHTTP(rec, req) })
-				in := map[string]any{"codecs": names, "kind": kind, "method": method, "version": ver, "content_type": ct}
-				r.Eval("dispatch", fmt.Sprintf("%d|%d|%s|%v|%q", si, ki, method, ver, ct))
+				in := map[string]any{"codecs": names, "kind": kind, "method": method, "version": ver, "content_type": ct, "announces_timeout_zero": expired}
+				r.Eval("dispatch", fmt.Sprintf("%d|%d|%s|%v|%q|%v", si, ki, method, ver, ct, expired))
 				if p != nil {
 					r.Fail(h.Failure{Key: "dispatch/panic", Family: "dispatch", What: fmt.Sprint("panic: ", p), Input: in})
 					return
@@ -212,7 +218,13 @@ func C12(r *h.Run) {
 				if want != 0 && (userCalls != 0 || icptCalls != 0) {
 					r.Fail(h.Failure{Key: "dispatch/rejected-ran-user-code", Family: "dispatch", What: "user code or interceptors ran for a rejected request", Input: in, Actual: fmt.Sprint(userCalls, icptCalls)})
 				}
-				if want == 0 && served && (userCalls != 1 || icptCalls != 1) {
+				if want == 0 && served && expired {
+					// the call is accepted and its deadline has passed: interceptors see it (once, with the
+					// handler's Spec); whether user code still runs is C15's business
+					if icptCalls != 1 || userCalls > 1 {
+						r.Fail(h.Failure{Key: "dispatch/served-not-once", Family: "dispatch", What: "an accepted request whose announced timeout is zero: interceptors did not run exactly once", Input: in, Actual: fmt.Sprint(userCalls, icptCalls)})
+					}
+				} else if want == 0 && served && (userCalls != 1 || icptCalls != 1) {
 					r.Fail(h.Failure{Key: "dispatch/served-not-once", Family: "dispatch", What: "user code and interceptors did not run exactly once for a served request", Input: in, Actual: fmt.Sprint(userCalls, icptCalls)})
 				}
 				if want == 0 && served && len(specs) == 1 && (specs[0].Procedure != procedure || specs[0].IsClient || int(specs[0].StreamType) != []int{0, 1, 2, 3}[ki]) {
@@ -231,6 +243,13 @@ func C12(r *h.Run) {
 				}
 				run(m, [2]int{2, 0}, "text/plain", true)
 			}
+			expired = true
+			for _, ct := range advertised {
+				run("POST", [2]int{2, 0}, ct, false)
+			}
+			run("GET", [2]int{2, 0}, advertised[0], false)
+			run("POST", [2]int{2, 0}, "text/plain", false)
+			expired = false
 		}
 	}
 
